@@ -42,12 +42,19 @@ def run(chk, binary):
     for _ in range(n):
         text = rng.choice(V.TEXTS)
         prefix = [V.any_cmd(rng) for _ in range(rng.choice([0, 0, 1, 1, 2, 3]))]   # reach a cursor by earlier commands
+        if rng.random() < 0.06:
+            prefix = prefix + [rng.choice(["d", "c", "y", '"a', "2", "g", "2d", "f"])]      # an unfinished command: forgotten at the end of its argument
         if rng.random() < 0.15:
             # an edit taken back (and perhaps redone) just before: the text is an earlier one again, the tables must be too
             prefix = prefix + [V.edit(rng), "u"] + (["<c-r>"] if rng.random() < 0.4 else [])
         r = rng.random()
         cmd = V.nonedit(rng) if r < 0.8 else V.edit(rng)
-        if r < 0.08:
+        if r < 0.04:
+            # whole lines: V alone, or extended upwards or downwards - the field is those lines, line breaks included
+            cmd = "V" + "".join(rng.choice(["", "k", "j", "kk", "gg", "G"]) for _ in range(rng.randint(0, 2)))
+            if rng.random() < 0.6:
+                prefix = prefix + ["G"]
+        elif r < 0.08:
             # a selection that goes back and forth over the place where v was pressed
             cmd = "v" + "".join(rng.choice(["b", "h", "k", "w", "l", "j", "e", "ge", "0", "$", "B", "W", "2h", "2l"]) for _ in range(rng.randint(2, 4)))
         keys = prefix + [cmd]
@@ -125,6 +132,26 @@ def run(chk, binary):
                     if (int(rg.args[0]), int(rg.args[1])) != (min(c0, c1), max(c0, c1)):
                         chk.violation("spec:a selection made by v and motions does not run from where v was pressed to the cursor",
                                       dict(case, expected_range=[min(c0, c1), max(c0, c1)]))
+                # whole lines chosen by V and vertical motions only: the field is the lines between the two cursor positions, with
+                # their line breaks - worked out from the text, not from the range the editor reports
+                # (one direction only: where the fixed end stays when the direction turns is how V works - C02 - not what is cut)
+                if mode == 1 and (re.fullmatch(r"V(k|gg)*", cmd) or re.fullmatch(r"V(j|G)*", cmd)):
+                    cl_ = clusters(st)
+                    def line_of(i_):
+                        return sum(1 for x_ in cl_[:min(i_, len(cl_))] if x_ == "\n")
+                    la, lb = sorted((line_of(c0), line_of(min(c1, max(0, len(cl_) - 1)))))
+                    rows, cur_ = [], ""
+                    for x_ in cl_:
+                        cur_ += x_
+                        if x_ == "\n":
+                            rows.append(cur_)
+                            cur_ = ""
+                    if cur_:
+                        rows.append(cur_)
+                    expv = "".join(rows[la:lb + 1])
+                    dist["V_lines"] = dist.get("V_lines", 0) + 1
+                    if rows and ifield != expv:
+                        chk.violation("spec:a selection made by V and vertical motions is not the whole lines between the two cursor positions", dict(case, expected=expv))
                 # the cursor lies inside the selection it cut
             # the field is a contiguous, cluster-aligned stretch of the buffer
             if ifield and ifield not in st["buf"] and sel is None:
